@@ -26,7 +26,7 @@ def doc_digit_expr(tok):
 def run(rep, tier, seed, budget):
     ctx = Ctx.get()
     gr, dec = ctx.gr, ctx.dec
-    NMAX = 16 ** 3 if tier == "quick" else 16 ** 5
+    NMAX = 16 ** 3 if tier == "quick" else 16 ** 4
     rep.level = "model_checking"
 
     # ---- A: encoder-side conversion, n symbolic
